@@ -103,7 +103,41 @@ static void eq_cases(Harness &H, const std::string &d0, const Grid<S> &g, const 
     }
 }
 
+// floating types: predicates must not use tolerances. Coefficients of tiny magnitude are not zero, coefficient
+// vectors that differ in the last bit are not equal.
+template <class FT>
+static void float_cases(Harness &H, const char *tn) {
+  auto pts = grid_family("nonuni", 4);
+  Grid<FT> g = mkgrid<FT>(pts);
+  const FT tiny = std::numeric_limits<FT>::denorm_min(), small = std::numeric_limits<FT>::min(), eps = std::numeric_limits<FT>::epsilon();
+  for (Win w : windows(4)) {
+    if (!w.nint()) continue;
+    for (size_t pos = 0; pos < w.nint() * 2; pos++)
+      for (int kind = 0; kind < 4; kind++) {
+        if (!H.take()) continue;
+        static const char *kn[] = {"denorm_min", "min", "eps/4", "-eps*eps"};
+        FT val = kind == 0 ? tiny : kind == 1 ? small : kind == 2 ? eps / 4 : -eps * eps;
+        H.begin(std::string(tn) + ";float-predicates;" + wstr(w) + ";slot" + std::to_string(pos) + ";" + kn[kind]);
+        std::vector<std::array<FT, 2>> c(w.nint(), std::array<FT, 2>{FT(0), FT(0)}), c1(w.nint(), std::array<FT, 2>{FT(1), FT(-2)}), c2;
+        c[pos / 2][pos % 2] = val;
+        c2 = c1;
+        c2[pos / 2][pos % 2] = c2[pos / 2][pos % 2] * (FT(1) + eps);  // differs in the last bit
+        Spline<FT, 1> s(Support<FT>(g, w.s, w.e), c), a(Support<FT>(g, w.s, w.e), c1), b(Support<FT>(g, w.s, w.e), c2), z(Support<FT>(g, w.s, w.e), std::vector<std::array<FT, 2>>(w.nint(), std::array<FT, 2>{FT(0), FT(-0.0)}));
+        if (s.isZero()) H.fail("isZero", std::string("isZero() is true for a spline with the non-zero coefficient ") + kn[kind]);
+        if (!z.isZero()) H.fail("isZero", "isZero() is false for a spline whose coefficients are +0 and -0");
+        if (a == b || !(a != b)) H.fail("eq", "splines whose coefficients differ in the last bit compare equal");
+        if (!(a == a) || !(s == s)) H.fail("eq-refl", "a == a is false");
+        H.cls(std::string("float-predicates:") + tn);
+        H.nontriv();
+        H.end();
+      }
+  }
+}
+
 static void run(Harness &H) {
+  float_cases<double>(H, "double");
+  float_cases<float>(H, "float");
+  float_cases<long double>(H, "long double");
   const size_t NMAX = H.thorough() ? 6 : 5, OMAX = H.thorough() ? 3 : 2;
   for (std::string fam : {"nonuni", "uni"}) {
     for (size_t n = 2; n <= NMAX; n++) {
